@@ -1014,7 +1014,7 @@ class PushPullPhaseShifter(Model):
         self.pn = param_name
         self.param_dic = {param_name: 0.0}
         self.default_params = deepcopy(self.param_dic)
-        self.update_pins
+        self.update_pins()
 
     def create_S(self) -> np.ndarray:
         """Function for returning the scattering matrix of the model
